@@ -122,6 +122,13 @@ def run(shard, rec, tier, seed):
                     cells.add((c, i % 2, n % 2))
                     cnt += 1
                     rec.case(bytes(x))
+        rng = random.Random("C08-huge")
+        for L in (65535, 65536, 65537, 70001, 131073):
+            x = bytes(rng.choice([rng.randrange(256), 0x41, 0x7E, 0xFF, 0x00]) for _ in range(L))
+            mon.check(x)
+            rec.case(("huge", L))
+            cnt += 1
+        rec.seen("huge-lengths", "65535 65536 65537 70001 131073")
         rec.count("table-cells", len(cells))
         rec.info["exhaustive_table"] = "all %d (byte, index parity, length parity) cells" % len(cells)
         rec.sample({"table_case": "byte 0x22 at index 1 of 4", "encoded": mon.apply(mon.enc, bytes([0x41, 0x22, 0x41, 0x41]))})
